@@ -133,6 +133,7 @@ CHECKS = {
     "C08": {
         "quick": [
             {"name": NODE + "ZZ_C08_K1", "reach": ["K1 end"], "bound": "one block (optional menu transaction): inventory of durable writes via the verif hook"},
+            {"name": NODE + "ZZ_C08_K3", "reach": ["K3 end"], "bound": "process death after InitChain / BeginBlock(1) / EndBlock(1) and before the first Commit; restart, Info, InitChain again, block 1"},
             {"name": NODE + "ZZ_C08_K2", "native_repeat": 0, "reach": ["K2 recovered", "K2 no crash", "K2 replay failed"], "bound": "twin: replica A never crashes; replica C dies immediately before the k-th durable write (k = 1..12, i.e. every write position of Commit and 'no crash') of block 3 (one menu transaction with votes); restart on a copy of the data directory; Info; replay of block 3 when the old height is reported; block 4 with one menu transaction on both"},
         ],
         "bounds": "1 interrupted block, all 11 write positions of its Commit, 1 block after recovery",
@@ -167,10 +168,11 @@ CHECKS = {
     "C11": {
         "quick": [
             {"name": STAKE + "ZZ_C11_B1", "reach": ["B1 end", "staking ok", "staking rejected", "unstaking ok", "unstaking rejected"], "bound": "state: delegatees A0,A1 each optional with a self stake and an optional delegated stake, optional unbonding stake, all powers symbolic; one staking or unstaking tx with arbitrary sender/target/stake reference/amount; then Commit"},
+            {"name": STAKE + "ZZ_C14_S45", "reach": ["S45 end", "S45 jailed"], "bound": "slashing (0..2 pieces of evidence) and downtime jailing from the same arbitrary state, then the bookkeeping invariant"},
             {"name": STAKE + "ZZ_C11_B3", "reach": ["B3 end", "staking ok", "unstaking ok"], "bound": "one delegatee; 3 transactions in one block from {stake to A0 by A0/A2, unstake any existing stake by A0/A2} incl. delete/re-create/modify of the delegatee; then Commit"},
         ],
         "bounds": "<=2 delegatees x <=3 stakes; 1 step from arbitrary state (B1), 3 steps in one block (B3)",
-        "outside": "more stakes per delegatee; slashing and jailing steps (decided under C14); stake limiter active (needs >=3 validators)",
+        "outside": "more stakes per delegatee; stake limiter active (needs >=3 validators)",
         "assumptions": A_COMMON + A_STORE + ["A-GOV: governance parameters in sane ranges", "accounts are a plain address->Account book in these harnesses (the account controller is exercised by node-level harnesses)"],
     },
     "C12": {
@@ -178,9 +180,10 @@ CHECKS = {
             {"name": STAKE + "ZZ_C12_O12", "reach": ["O12 accepted", "O12 rejected"], "bound": "arbitrary state as in C11/B1, one unstaking tx with arbitrary sender/target/stake reference at a symbolic height"},
             {"name": STAKE + "ZZ_C12_O3", "reach": ["O3 end"], "bound": "1..3 unbonding stakes with symbolic owner/power/refund height, EndBlock+Commit at symbolic height h and h+1, unbonding period changed in between"},
             {"name": STAKE + "ZZ_C12_O4", "reach": [], "bound": "two genesis validators (zero TxHash) unbond in one block"},
+            {"name": STAKE + "ZZ_C14_S45", "reach": ["S45 jailed"], "bound": "force-release by downtime jailing: every stake of the jailed validator is frozen with refund height = height + unbonding period in force"},
         ],
         "bounds": "<=2 delegatees, <=3 unbonding stakes, two consecutive block ends",
-        "outside": "force-release by downtime jailing (C14/S4 asserts the same refund height); more concurrent unbonding stakes",
+        "outside": "more concurrent unbonding stakes; unbonding-period changes between a force-release and maturity",
         "assumptions": A_COMMON + A_STORE + ["A-GOV"],
     },
     "C13": {
